@@ -305,9 +305,23 @@ impl<'r> PG<'r> {
     }
 
     fn stub(&mut self, inner: G) -> G {
+        let in_body = self.macro_depth > 0;
         let name = match self.r.below(10) {
-            0..=3 => "y",
-            4..=6 => "boom",
+            0..=3 => {
+                if in_body {
+                    // announce the innermost iteration variable
+                    let var = self.env.last().map(|(n, _)| n.clone()).unwrap_or_else(|| "x".into());
+                    return G::Call("yc".into(), None, vec![inner, G::Lit(format!("'{}'", var))]);
+                }
+                "y"
+            }
+            4..=6 => {
+                if in_body {
+                    "boomc"
+                } else {
+                    "boom"
+                }
+            }
             _ => "log",
         };
         G::Call(name.into(), None, vec![inner])
@@ -777,7 +791,8 @@ pub fn gen_workload(run_seed: u64, engine: Engine, lim: &Limits, faults: bool) -
         hash_seed: r.next_u64(),
         hash_seed2: r.next_u64(),
         buggify_milli: *r.pick(&[0u32, 0, 100, 500]),
-        check_every_op: r.chance(4, 5),
+        // under Miri the oracle's lookups dominate the cost: check at checkpoints and at the end only
+        check_every_op: r.chance(4, 5) && engine != Engine::M,
         twin_same: engine == Engine::S && r.chance(9, 10),
         twin_other: engine == Engine::S && r.chance(1, 2),
     };
